@@ -27,6 +27,7 @@ Inductive stmt :=
 | SAssign (x : nat) (e : expr)
 | SIf (c : expr) (a b : stmt)               (* each branch is a block (own scope) *)
 | SWhile (c : expr) (body : stmt)
+| SFor (x : nat) (t : ity) (lo hi : expr) (body : stmt)   (* for x in lo..hi { body }: hi exclusive, bounds evaluated once *)
 | SBreak | SContinue
 | SReturn (e : option expr)
 | SPrint (es : list expr)                   (* io::Println(e1, ..., en) *)
